@@ -93,16 +93,16 @@ Theorem C18_sync_bracket_source : forall o s',
 Proof. exact draw_screen_closes_sync. Qed.
 Print Assumptions C18_sync_bracket_source.
 
-(** _start, _stop and clear() delete every image whatever is on the terminal (when the
-    kitty protocol is supported), and change the canvas disguise so that every image line
+(** _start, _stop (whether or not the base class' _stop calls clear() again) and clear()
+    delete every image whatever is on the terminal (when the kitty protocol is supported), and change the canvas disguise so that every image line
     is written again by the next draw. *)
-Theorem C18_cleared_on_start_stop_clear : forall konsole inner s t,
+Theorem C18_cleared_on_start_stop_clear : forall konsole inner base_clears s t,
   forallb no_place inner = true ->
   t_plcs (pexec konsole t (fst (start_stream true inner s))) = []
-  /\ t_plcs (pexec konsole t (fst (stop_stream true inner s))) = []
+  /\ t_plcs (pexec konsole t (fst (stop_stream true base_clears inner s))) = []
   /\ t_plcs (pexec konsole t (fst (clear_stream true s))) = []
   /\ s_cdis (snd (start_stream true inner s)) <> s_cdis s
-  /\ s_cdis (snd (stop_stream true inner s)) <> s_cdis s
+  /\ s_cdis (snd (stop_stream true base_clears inner s)) <> s_cdis s
   /\ s_cdis (snd (clear_stream true s)) <> s_cdis s.
 Proof. exact cleared_on_start_stop_clear_lemma. Qed.
 Print Assumptions C18_cleared_on_start_stop_clear.
